@@ -94,7 +94,7 @@ func (s *Sim) runFree(actions []Action) {
 		lat = []int64{200_000, 1_000_000, 3_000_000}[s.hash("freelat")%3]
 	}
 	s.kern.autoLat = time.Duration(lat) // set before any request can be in flight
-	gaps := []int64{0, 0, 100_000, lat / 2, lat, 3 * lat, 10 * lat}
+	gaps := []int64{0, 0, 100_000, lat / 2, lat, 3 * lat, 10 * lat, 100_000_000, 400_000_000}
 	t := int64(s.since()) + 1_000_001
 	if t%2 == 0 {
 		t++
@@ -102,6 +102,7 @@ func (s *Sim) runFree(actions []Action) {
 	scripts := make([][]freeSend, len(s.smfs))
 	var prods []freeProd
 	stopAt := int64(-1)
+	budget := 100
 	for i, a := range actions {
 		switch a.Op {
 		case "send":
@@ -118,6 +119,19 @@ func (s *Sim) runFree(actions []Action) {
 				scripts[k] = append(scripts[k], freeSend{at: t, raw: b, from: a.From})
 			}
 		case "krep", "armburst", "kbuf", "detach":
+			// all notifications of one execution together stay below the report queue's
+			// capacity (128): a full queue is C18's known wedge D9b, not a C17 verdict
+			n := 1
+			if a.KBuf != nil && a.KBuf.Count > 1 {
+				n = a.KBuf.Count
+				if n > 40 {
+					n = 40
+				}
+			}
+			if budget-n < 0 {
+				break
+			}
+			budget -= n
 			prods = append(prods, freeProd{at: t, a: a})
 		case "adv":
 			ms := a.Ms
